@@ -53,6 +53,13 @@ import math
 import c06corpus2
 
 SCALE = 2.0
+# module-level floats that share their names with LOCALS / PARAMETERS of functions below (Python scoping: invisible)
+leak = 0.25
+drain = 4.0
+SCALE2 = 8.0
+s = 1.5
+k = 2.5
+x = 3.5
 
 
 def helper(a, b):
@@ -242,6 +249,83 @@ def scale_gate(x):
 
 def via_other_module(a, b):
     return c06corpus2.gain(a) + b * SCALE
+
+
+def two_level_guard(s, i, km):
+    if i > 1.0:
+        if s < km:
+            return 0.0
+    s = s / km
+    return s / (1.0 + s)
+
+
+def else_only_if(x, lo, hi):
+    if x > hi:
+        x = hi
+    else:
+        if x < lo:
+            pass
+    x = x - lo
+    return x * 2.0
+
+
+def pass_body(x, k):
+    if x > k:
+        pass
+    x = x * 0.5
+    return x + k
+
+
+def pass_then_else(x, k):
+    if x > k:
+        pass
+    else:
+        k = k + 1.0
+    x = x - k
+    return x * k
+
+
+def nested_fallthrough_local(a, b):
+    y = a
+    if a > b:
+        if b > 0:
+            return y
+    y = y * 2.0
+    y = y + b
+    return y
+
+
+def tuple_rebind(a, b):
+    if a > b:
+        pass
+    a, b = b + 1.0, a * 2.0
+    return a - b
+
+
+def default_zero(s, k):
+    leak = 0.0
+    if s > k:
+        leak = s - k
+    return s + leak
+
+
+def zero_by_cancelling(s, k):
+    leak = s - s
+    drain = 0.0 * k
+    return k + leak + 2.0 * drain
+
+
+def int_zero_in_branch(x):
+    if x > 1:
+        leak = 0
+    else:
+        leak = x
+    return leak + x
+
+
+def zero_parameter_copy(scale_in):
+    SCALE2 = scale_in * 0.0
+    return SCALE2 + scale_in
 
 
 def early_none(x):
@@ -514,6 +598,7 @@ def oracle_pass(ctx: Ctx, rep: Report, fns: list, phase: str, min_encoded: int) 
 
 
 def run_oracle(ctx: Ctx, rep: Report) -> None:
+    v0 = len(rep.violations) + sum(h["count"] for h in rep.known_hits.values())
     stats = oracle_pass(ctx, rep, collect(ctx), "", 20)
     # ---- history: translate (done above), re-bind module constants, translate again ------------------------
     # every function of the two corpus modules has been translated once; a translator that remembers module
@@ -530,6 +615,7 @@ def run_oracle(ctx: Ctx, rep: Report) -> None:
             setattr(sys.modules[mn], c, v)
     stats["rebound_constants"].pop("outside_subset", None)
     stats["known_fns"] = known_fns_check(ctx, rep)
+    stats["mismatches"] = len(rep.violations) + sum(h["count"] for h in rep.known_hits.values()) - v0
     rep.notes["oracle"] = stats
 
 
